@@ -40,6 +40,24 @@ claim("C07",
       TRUST + "the scripted read half is itself cancel-safe",
       "TLA+ model checking (TLC) with a Cancel action + TLC trace validation of executions with dropped receive futures",
       "4/C07")
+claim("C02",
+      "TLC checks exhaustively (all histories of enqueue/send/flush with document lengths around every growth "
+      "step and the limit, serializer refusals anywhere) that the implementation-shaped WriteConn model "
+      "refines the property-level Outbound spec; TLC-enumerated histories are replayed against the real "
+      "Connection and every execution (free-space sweep 0..=600, random histories, write failures) is "
+      "validated by TLC against OutboundTrace: each transport write must carry exactly the accepted "
+      "documents, each followed by one NUL, in order.",
+      TRUST + "a document's identity is the digest of serde_json::to_vec of the same value",
+      "TLA+ model checking (TLC) of WriteConn => Outbound + TLC trace validation of recorded write histories",
+      "4/C02")
+claim("C17",
+      "ReadConn (MAXB=8) and WriteConn (MAXB=12) are model-checked for: overflow exactly when buffered bytes "
+      "reach the limit, smaller frames accepted, oversized refused, buffer length <= limit, refused message "
+      "contributes nothing; hook-lowered builds sweep every size/chunking near every step and the limit in both "
+      "directions, thorough adds the production 100 MiB inbound limit; all runs validated by TLC.",
+      TRUST + "buffer constants lowered at compile time through the cfg(zlink_verif) hook",
+      "TLA+ model checking (TLC) of ReadConn/WriteConn with a size limit + TLC trace validation of boundary sweeps",
+      "4/C17")
 
 
 def main():
